@@ -91,6 +91,17 @@ Theorem C20_comma_union_in : forall fs items s,
   exists l, resolve_all fs (join c_comma items) = Names l /\
             (In s l <-> exists it, In it items /\ In s (resolve_local fs (strip it))).
 Proof. exact comma_union_in. Qed.
+(* end to end, for a canonical name [s] of an existing file: File.resolve_filenames returns it exactly when
+   some item names it or matches it (or matches it through the dataset rule) *)
+Theorem C20_resolve_all_exact : forall fs items s f,
+  wf_fs fs = true -> items <> [] -> Forall (fun it => forall c, In c it -> c <> c_comma) items ->
+  Forall (fun it => get_fs (strip it) = cls_local) items ->
+  In f (files fs) -> cname fs s f ->
+  exists l, resolve_all fs (join c_comma items) = Names l /\
+    (In s l <-> exists it, In it items /\
+                  if isfile fs (strip_scheme (strip it)) then s = strip_scheme (strip it)
+                  else accepts (eff_expr (strip it)) s = true).
+Proof. exact resolve_all_exact. Qed.
 (* items without '://' and items starting with file:// go to the local file system
    (with the scheme table regenerated from fileio/fs/__init__.py) *)
 Theorem C20_local_without_scheme : forall it, before_first scheme_sep it = None -> get_fs it = cls_local.
